@@ -224,6 +224,9 @@ func (w *World) trSpec(e *SExpr, env *SpecEnv) *Val {
 			}
 			return tv(tSelect(base.T, idx.T), et)
 		}
+		if base.T.S.Kind == KUnint && base.T.S.Name == "Str" {
+			return tv(mk("strAt", SInt, base.T, idx.T), types.Typ[types.Uint8]) // the byte at a position of a string (as in Go)
+		}
 		panic("spec: index on non-array " + e.String())
 	case "quant":
 		extra := map[string]*Val{}
@@ -458,6 +461,13 @@ func (w *World) trSpecCall(e *SExpr, env *SpecEnv) *Val {
 			zero = realLit("0")
 		}
 		return tv(tIte(mk(">=", SBool, a.T, zero), a.T, mk("-", a.T.S, a.T)), a.GoT)
+	case "isNaN": // math.IsNaN as the program sees it (uninterpreted class predicate of a float)
+		a := w.trSpec(args[0], env)
+		return tv(mk("isnan", SBool, toReal(a.T)), nil)
+	case "isInf": // math.IsInf(x, sign)
+		a := w.trSpec(args[0], env)
+		sg := w.trSpec(args[1], env)
+		return tv(mk("isinf", SBool, toReal(a.T), sg.T), nil)
 	case "isInt":
 		a := w.trSpec(args[0], env)
 		return tv(mk("is_int", SBool, toReal(a.T)), nil)
